@@ -18,7 +18,7 @@ EXPLANATION = (
     "BaseExceptions fall to last_resort and are re-raised), each handler resolves to a _report_* whose "
     "body calls the result method of the same kind exactly once, last_resort is _report_error and "
     "onException's no-traceback list equals the three signal classes. R-FIRST-MATCH: the dispatch walks "
-    "self.handlers in list order with isinstance and leaves at the first match. R-ALL-EXC-CONSIDERED: "
+    "self.handlers in list order with isinstance and leaves at the first match. R-NEVER-MASKED: "
     "the dispatch must inspect the whole recorded list (one-element accessors let a later skip mask an "
     "earlier failure). R-EXPECT-FORCES: expectThat's mismatch arm sets force_failure and cannot raise; "
     "the forced failure is raised through the recorder before the success decision."
@@ -38,7 +38,6 @@ def run(ctx):
     ctx.rule("R-SUCCESS-GUARD", "addSuccess is never delivered on a path where user code raised or a failure was forced")
     ctx.rule("R-HANDLER-TABLE", "exception_handlers: no shadowing, Exception last, each handler reports the matching outcome once")
     ctx.rule("R-FIRST-MATCH", "handlers are tried in list order; the first isinstance match wins")
-    ctx.rule("R-ALL-EXC-CONSIDERED", "the dispatch may ignore a recorded exception only after inspecting it")
     ctx.rule("R-EXPECT-FORCES", "expectThat sets force_failure without raising; the forced failure is recorded before the success decision")
     classes = ctx.classes
     rt = classes.get(RUNTEST, "RunTest")
@@ -227,26 +226,6 @@ def run(ctx):
     ok = any(isinstance(n, ast.Assign) and dotted(n.targets[0]) == "self.handlers" and "handlers" in norm(n.value) and "sorted" not in norm(n.value) and "reversed" not in norm(n.value)
              for n in walk_shallow(init_rt, include_self=False))
     ctx.check("R-FIRST-MATCH", "RunTest keeps the handler list in the order given", init_rt, ok, "RunTest.__init__ reorders the handlers", construct=f"{Q}.__init__::order")
-    single, whole = [], []
-    for n in walk_shallow(rpr, include_self=False):
-        if isinstance(n, ast.Attribute) and dotted(n) == "self._exceptions" and isinstance(n.ctx, ast.Load):
-            p = getattr(n, "_parent", None)
-            if isinstance(p, ast.Attribute) and p.attr == "pop" and isinstance(getattr(p, "_parent", None), ast.Call):
-                single.append(p._parent)
-            elif isinstance(p, ast.Subscript) and p.value is n and not isinstance(p.slice, ast.Slice):
-                single.append(p)
-            elif isinstance(p, (ast.For, ast.comprehension)) and p.iter is n:
-                whole.append(p)
-            elif isinstance(p, ast.Call) and n in p.args:
-                whole.append(p)
-    for s in single:
-        ctx.check("R-ALL-EXC-CONSIDERED", f"dispatch reads {norm(s)}", s, bool(whole),
-                  f"the outcome is selected from {norm(s)} alone: what a later stage raises (a skip, an expected failure) replaces an earlier failure or error",
-                  construct=f"{Q}._run_prepared_result::{norm(s)}")
-    if not single:
-        ctx.check("R-ALL-EXC-CONSIDERED", "dispatch inspects the whole recorded list", rpr, bool(whole), "no read of the recorded list feeds the dispatch",
-                  construct=f"{Q}._run_prepared_result::reads")
-
     # ------------------------------------------------------------------ expectThat forces failure
     et = own_method(ctx, TESTCASE, "TestCase", "expectThat")
     g = cfg_of(ctx, et)
